@@ -27,6 +27,7 @@ RULES = {
     "R12.3": "config.max_checkpoints / enable_async_checkpointing reach CheckpointManagerOptions(max_to_keep=, enable_async_checkpointing=) through all hops",
     "R12.4": "in _setup_checkpointing the `checkpoint_frequency == 0` return dominates mkdir, manager creation and the config write",
     "R12.5": "_save_solver_config() is called iff has_full_config",
+    "R12.7": "restore(): an explicit checkpoint_frequency / max_checkpoints override - including 0, which disables checkpointing - reaches the configuration (guarded by `is not None`, not by truthiness)",
     "R12.6": "file-system effects on a checkpoint directory occur only at the frozen sites (mkdir + OmegaConf.save in set-up, CheckpointManager(create=True) in _create_checkpoint_manager, checkpoint_manager.save)",
 }
 ASSUMPTIONS = [
@@ -63,6 +64,8 @@ def run(ctx: Context, col) -> None:
     _setup(ctx, col)
     _enabled(ctx, col)
     _writers(ctx, col)
+    _override_zero(ctx, col)
+    col.floor("R12.7", 2)
     col.floor("R12.1", 6)
     col.floor("R12.2", 5)
     col.floor("R12.3", 5)
@@ -479,3 +482,22 @@ def _writers(ctx, col):
     col.add("R12.6", "CheckpointMixin._create_checkpoint_manager", cm.module.relpath, cm.node.lineno, ok,
             "managers are created by the set-up and by the two read routes only" if ok else
             f"_create_checkpoint_manager is called from {sorted(callers)}", text="callers of _create_checkpoint_manager")
+
+
+class _Refile:
+    def __init__(self, col):
+        self.col = col
+
+    def add(self, rule, construct, file, line, ok, detail, text="", **k):
+        if rule == "R10.4" and text in ("override checkpoint_frequency", "override max_checkpoints"):
+            return self.col.add("R12.7", construct, file, line, ok, detail, text=text, **k)
+        return True
+
+    def __getattr__(self, n):
+        return getattr(self.col, n)
+
+
+def _override_zero(ctx, col):
+    from . import c10
+
+    c10._overrides(ctx, _Refile(col))
